@@ -202,7 +202,7 @@ pub fn exec(actor: &mut Actor, rc: &RunCtx, step: &Value) {
     call.insert("ev".into(), json!("call"));
     call.insert("t".into(), json!(t));
     call.insert("op".into(), json!(op));
-    for k in ["h", "g", "c", "l", "ls", "v"] {
+    for k in ["h", "g", "c", "l", "ls", "v", "held"] {
         if !step[k].is_null() {
             call.insert(k.into(), json!(sname(geti(k))));
         }
